@@ -34,8 +34,8 @@ Lemma Side_change K K' s s' : Side K s -> mtags s' = mtags s -> inl s' = inl s -
   umacros s' = umacros s -> bf s' = bf s -> dtags s' = dtags s -> verse s' = verse s -> format s' = format s -> mode s' = mode s ->
   panicked s' = panicked s -> ivars s' = ivars s -> params s' = params s -> toc s' = fst K' -> lox_toc s' = snd K' ->
   lox_lof s' = lox_lof s -> lox_lot s' = lox_lot s -> lox_lop s' = lox_lop s ->
-  files s' = files s -> navtext s' = navtext s -> lox_nav s' = lox_nav s -> Side K' s'.
-Proof. intros [A1 A3 A4 A5 A6 A7 A8 A9 A10 A11 A12 A13 A14 A15 A16 A17 A18 A19 A20 A21 A22 A23] E1 E3 E4 E5 E6 E7 E8 E9 E10 E11 E12 E13 E14 E15 E16 E17 E18 E19 E20 E21 E22 E23.
+  files s' = files s -> navtext s' = navtext s -> lox_nav s' = lox_nav s -> images s' = images s -> Side K' s'.
+Proof. intros [A1 A3 A4 A5 A6 A7 A8 A9 A10 A11 A12 A13 A14 A15 A16 A17 A18 A19 A20 A21 A22 A23 A24] E1 E3 E4 E5 E6 E7 E8 E9 E10 E11 E12 E13 E14 E15 E16 E17 E18 E19 E20 E21 E22 E23 E24.
   split; try congruence; try (unfold fmt in *; rewrite E11; exact A11); try (rewrite E1; exact A1); try (rewrite E12; exact A12). Qed.
 Lemma P_change K K' p s s' : P K p s -> Side K' s' -> sblock s' = sblock s -> process s' = process s ->
   out s' = out s -> view s' = view s -> buf s' = buf s -> format s' = format s -> P K' p s'.
@@ -126,7 +126,8 @@ Proof. intros Hn Hmac Harg Hc (HP & Hok & Hcnt). pose proof HP as (HS & Hsb & Hp
     match goal with |- context [if X.multi s7o && ?c then ?a else ?b] => set (s7 := if X.multi s7o && c then a else b) end.
     assert (HP7 : P K3 true s7 /\ has_cur s7 = true /\ view s7 = view s2).
     { unfold s7. destruct (X.multi s7o && _) eqn:Emf; [|split; [exact HP7o|split; [exact Hc7o|exact Hv7o]]].
-      apply andb_true_iff in Emf as [Emf _]. rewrite (proj1 (Side_multi _ _ _ _ (proj1 HP7o))) in Emf. apply Nat.eqb_eq in Emf.
+      apply andb_true_iff in Emf as [Emf _]. rewrite (proj1 (Side_multi _ _ _ _ (proj1 HP7o))) in Emf.
+      assert (Emf' : MD = 2%nat \/ MD = 3%nat) by (apply orb_true_iff in Emf as [E|E]; apply Nat.eqb_eq in E; [left|right]; exact E). clear Emf. rename Emf' into Emf.
       pose proof HP7o as (HSo & Hsbo & Hpro & HIo). specialize (HIo eq_refl).
       assert (Hpo : par s7o = false) by (rewrite <- Hp2; exact (f_equal (fun v => fst (fst (fst (snd v)))) Hv7o)).
       assert (Hel : elems s7o = []) by (unfold elems; rewrite Hv7o; unfold view, elems_v; rewrite Hsb2, Hp2; reflexivity).
@@ -186,9 +187,9 @@ Proof. intros Hn Hmac Harg Hc (HP & Hok & Hcnt). pose proof HP as (HS & Hsb & Hp
 Qed.
 
 (* the header of pass 1: counters, label, the entry for the tables of contents *)
-Lemma header_ref_shape K s : Side K s -> MD <> 2%nat -> header_reference s = R "#s" ++ dec (hcount (toc s)).
+Lemma header_ref_shape K s : Side K s -> (MD <= 1)%nat -> header_reference s = R "#s" ++ dec (hcount (toc s)).
 Proof. intros HS Hmd. unfold header_reference. rewrite (sd_fmt _ _ _ _ HS). unfold X.header_reference.
-  assert (Hmulti : X.multi s = false) by (rewrite (proj1 (Side_multi _ _ _ _ HS)); apply Nat.eqb_neq; exact Hmd).
+  assert (Hmulti : X.multi s = false) by (rewrite (proj1 (Side_multi _ _ _ _ HS)); destruct MD as [|[|m]]; [reflexivity|reflexivity|clear -Hmd; lia]).
   assert (Hcust : X.custom_ids s = false) by (unfold X.custom_ids; rewrite (sd_pa _ _ _ _ HS); reflexivity).
   rewrite Hcust, Hmulti. cbn [negb]. unfold X.gen_ref_s. rewrite Hmulti. cbn [negb].
   destruct (_ || _); reflexivity. Qed.
@@ -196,7 +197,7 @@ Proof. intros HS Hmd. unfold header_reference. rewrite (sd_fmt _ _ _ _ HS). unfo
 Lemma macro_header_pass1 N rest s n a l : is_hdr n = true -> macro s = n -> args s = a -> has_cur s = true ->
   Q false N (BMacro n a l :: rest) s -> Q false N rest (macro_header pim s) /\
   (lox_toc (macro_header pim s) = lox_toc s \/
-   exists e, lox_toc (macro_header pim s) = lox_toc s ++ [e] /\ lx_count e = S (List.length (lox_toc s)) /\ (MD <> 2%nat -> lx_ref e = R "#s" ++ dec (lx_count e))).
+   exists e, lox_toc (macro_header pim s) = lox_toc s ++ [e] /\ lx_count e = S (List.length (lox_toc s)) /\ ((MD <= 1)%nat -> lx_ref e = R "#s" ++ dec (lx_count e))).
 Proof. intros Hn Hmac Harg Hc (HP & Hok & Hlen & Hcnt). pose proof HP as (HS & Hsb & Hpr & _).
   unfold macro_header.
   pose proof (hdr_args_agree _ _ s a HP) as Hagree.
@@ -271,7 +272,7 @@ Proof. intros Hn Hmac Harg Hc (HP & Hok & Hlen & Hcnt). pose proof HP as (HS & H
        [exact (sd_toc _ _ _ _ HS8)|rewrite (sd_lox _ _ _ _ HS8); reflexivity|exact (sd_files _ _ _ _ HS8)|exact (sd_nav _ _ _ _ HS8)
        |first [exact (sd_lnav _ _ _ _ HS8) | apply Forall_app; split; [exact (sd_lnav _ _ _ _ HS8)|constructor; [exact Hrgt|constructor]]]]). }
     fold sf. destruct Htf as (Htf & Hlf & Hsbf & Hprf & HSf). clearbody sf.
-    assert (Hcount_e : lx_count e = S (List.length (lox_toc s)) /\ (MD <> 2%nat -> lx_ref e = R "#s" ++ dec (lx_count e))).
+    assert (Hcount_e : lx_count e = S (List.length (lox_toc s)) /\ ((MD <= 1)%nat -> lx_ref e = R "#s" ++ dec (lx_count e))).
     { cbn [lx_count lx_ref e]. rewrite (eqf_get toc _ _ (fun _ => eq_refl) F86). destruct (P_toc _ _ _ HP6) as [Ht6 _]. cbn [fst] in Ht6. rewrite Ht6, Hh3, Hlen.
       split; [reflexivity|]. intro Hmd. rewrite (Eref Hmd), Ht6, Hh3. reflexivity. }
     split; [|right; exists e; split; [exact Hlf|exact Hcount_e]].
@@ -282,12 +283,6 @@ Proof. intros Hn Hmac Harg Hc (HP & Hok & Hlen & Hcnt). pose proof HP as (HS & H
 Qed.
 
 (* ---------- Tc: the table of contents (full, summary, unnumbered, titled; not -mini) ---------- *)
-Lemma toc_string_nomini_eqd d opts s : flag "mini" opts = false -> snd (X.toc_string d opts s) ~~ s.
-Proof. intro Hmini. unfold X.toc_string. destruct (lox_toc s) as [|e0 l0]; [apply err_eqd|]. cbv zeta. rewrite Hmini. cbn [andb].
-  destruct d; cbn [snd]; try reflexivity.
-  destruct (opt "title" opts) as [t0|]; [|reflexivity].
-  pose proof (render_text_eqd t0 s) as H. destruct (render_text t0 s) as [x s1]. exact H. Qed.
-
 Lemma macro_tc_Q p N rest s a l : args s = a -> tc_no_mini a -> Q p N (BMacro (R "Tc") a l :: rest) s -> Q p N rest (macro_tc s) /\ lox_toc (macro_tc s) = lox_toc s.
 Proof. intros Harg Hnm HQ. pose proof HQ as (HP & Hok & Hcnt). pose proof HP as (HS & Hsb & Hpr & HI).
   assert (Hcnt' : if p then (hcount (toc s) + hdr_count rest)%nat = List.length (lox_toc s)
@@ -352,7 +347,7 @@ Lemma Q_same p N rest s s' : KS s' = KS s -> P (KS s) p s' -> Q p N rest s -> Q 
 Proof. intros Hk HP' (_ & Hok & Hcnt). unfold KS in Hk. injection Hk as Ht Hl. split; [unfold KS; rewrite Ht, Hl; exact HP'|]. rewrite Hl, Ht. split; assumption. Qed.
 
 Definition grows (l l' : list lox) : Prop :=
-  l' = l \/ exists e, l' = l ++ [e] /\ lx_count e = S (List.length l) /\ (MD <> 2%nat -> lx_ref e = R "#s" ++ dec (lx_count e)).
+  l' = l \/ exists e, l' = l ++ [e] /\ lx_count e = S (List.length l) /\ ((MD <= 1)%nat -> lx_ref e = R "#s" ++ dec (lx_count e)).
 Lemma step_fragH pb p N b rest c s : in_fragH b -> Q p N (b :: rest) s ->
   Q p N rest (snd (step pb b (c, s))) /\ grows (lox_toc s) (lox_toc (snd (step pb b (c, s)))).
 Proof. intros Hb HQ. destruct Hb as [Hb | [(n & a & l & -> & Hn) | (a & l & -> & Hnm)]].
@@ -406,7 +401,7 @@ Proof. intros Hb HQ. destruct Hb as [Hb | [(n & a & l & -> & Hn) | (a & l & -> &
 Qed.
 
 (* the entries are numbered from 1 in the order of recording and refer to the anchor of their number *)
-Definition refs_ok (l : list lox) : Prop := forall i e, nth_error l i = Some e -> lx_count e = S i /\ (MD <> 2%nat -> lx_ref e = R "#s" ++ dec (S i)).
+Definition refs_ok (l : list lox) : Prop := forall i e, nth_error l i = Some e -> lx_count e = S i /\ ((MD <= 1)%nat -> lx_ref e = R "#s" ++ dec (S i)).
 Lemma refs_ok_grows l l' : refs_ok l -> grows l l' -> refs_ok l'.
 Proof. intros Hr [-> | (e & -> & Hc & Hrf)]; [exact Hr|]. intros i x Hx.
   destruct (Nat.lt_ge_cases i (List.length l)) as [Hlt|Hge].
@@ -450,15 +445,17 @@ Qed.
 (* ---------- the two passes ---------- *)
 (* fragment mode (0): nothing around the body; standalone mode (1): the document header leaves <html><body> open, the
    footer written by PostProcessing closes them; multi-file mode (2): the same for the index page and every part or chapter file *)
-Definition mode_base : Prop := (MD = 0%nat /\ BASE = []) \/ ((MD = 1%nat \/ MD = 2%nat) /\ BASE = [R "body"; R "html"]).
+Definition mode_base : Prop := (MD = 0%nat /\ BASE = []) \/ ((MD = 1%nat \/ MD = 2%nat \/ MD = 3%nat) /\ BASE = [R "body"; R "html"]).
 Lemma title_page_default s : params s = default_params -> X.title_page s = s.
 Proof. intro Hp. unfold X.title_page. rewrite Hp. reflexivity. Qed.
 Lemma run_footer : run X.doc_footer (Txt, [R "body"; R "html"]) = (Txt, []). Proof. vm_compute. reflexivity. Qed.
 
-Lemma Q_start wd main bs : mode_base -> Q false (hdr_count bs) bs (start_st (R "xhtml") MD wd main).
-Proof. intro Hmb. split; [|split; [constructor|split; reflexivity]].
-  split; [split; try reflexivity; [exact markup_ok_nil|split; [reflexivity|exact Hmb]|constructor|intro; reflexivity|constructor]|].
-  split; [constructor|]. split; [reflexivity|discriminate]. Qed.
+Definition xhtml_name (f : str) : Prop := f = R "xhtml" \/ f = R "epub".
+Lemma Q_start f wd main bs : mode_base -> xhtml_name f -> Q false (hdr_count bs) bs (start_st f MD wd main).
+Proof. intros Hmb [-> | ->];
+  (split; [|split; [constructor|split; reflexivity]]);
+  (split; [split; try reflexivity; [exact markup_ok_nil|split; [reflexivity|exact Hmb]|constructor|intro; reflexivity|constructor]|]);
+  (split; [constructor|]); (split; [reflexivity|discriminate]). Qed.
 
 (* the start of pass 2 from any state that has the shape Reset leaves *)
 Lemma page_start r : Side (KS r) r -> BASE = [R "body"; R "html"] ->
@@ -468,12 +465,43 @@ Proof. intros HSr Hb Hsb Hpr Hw Hbuf Hpar. set (dh := X.doc_header (X.param "doc
   assert (Hp : params r = default_params) by exact (sd_pa _ _ _ _ HSr).
   assert (Hel : elems r = []) by (unfold elems, view, elems_v; rewrite Hsb, Hpar; reflexivity).
   assert (Hdh : run dh (Txt, []) = (Txt, [R "body"; R "html"])).
-  { apply doc_header_run; [exact Hp|exact (proj2 (Side_multi _ _ _ _ HSr))|]. unfold X.param. rewrite Hp. intro; reflexivity. }
+  { apply doc_header_run; [exact Hp|]. unfold X.param. rewrite Hp. intro; reflexivity. }
   clearbody dh.
   split; [apply (Side_change _ _ r _ HSr); reflexivity|]. split; [change (sblock (wo dh r)) with (sblock r); rewrite Hsb; constructor|]. split; [exact Hpr|]. intros _.
   split; [|intros _; exact Hbuf|exact (sd_fmt _ _ _ _ HSr)].
   change (out (wo dh r)) with (flat (dh :: wout r) ++ flat (buf r)). change (elems (wo dh r)) with (elems r).
   rewrite Hw, Hbuf, Hel, flat_cons, flat_nil, !app_nil_r, Hb. exact Hdh.
+Qed.
+
+(* the index page of an EPUB, started from the state the generator leaves *)
+Lemma epub_page bs r g : Side (KS r) r -> eqdf g r -> Forall file_ok (files g) -> BASE = [R "body"; R "html"] -> Forall entry_ok (lox_toc r) ->
+  (hcount (toc r) + hdr_count bs)%nat = Datatypes.length (lox_toc r) ->
+  sblock r = [] -> process r = true -> wout r = [] -> buf r = [] -> par r = false ->
+  let s1 := wo (X.doc_header (X.param "document-title" g) g) (g <| curfile := R "EPUB/index.xhtml" |>) in
+  Q true (hdr_count bs) bs s1 /\ lox_toc s1 = lox_toc r /\ params s1 = default_params.
+Proof. intros HSr Eg Fg Hb Hok' Hcount Hsb Hpr Hw Hbuf Hpar.
+  assert (HSg : Side (KS r) g).
+  { apply (Side_change_gen (KS r) (KS r) BASE MD r g HSr); try (match goal with |- ?f g = ?f r => exact (eqdf_get f g r (fun _ => eq_refl) Eg) end);
+    [exact (eqdf_get toc _ _ (fun _ => eq_refl) Eg)|exact (eqdf_get lox_toc _ _ (fun _ => eq_refl) Eg)|exact Fg
+    |rewrite (eqdf_get navtext _ _ (fun _ => eq_refl) Eg); exact (sd_nav _ _ _ _ HSr)|rewrite (eqdf_get lox_nav _ _ (fun _ => eq_refl) Eg); exact (sd_lnav _ _ _ _ HSr)]. }
+  assert (Hkg : KS g = KS r) by (unfold KS; rewrite (eqdf_get toc _ _ (fun _ => eq_refl) Eg), (eqdf_get lox_toc _ _ (fun _ => eq_refl) Eg); reflexivity).
+  assert (HSgk : Side (KS g) g) by (rewrite Hkg; exact HSg).
+  set (g' := g <| curfile := R "EPUB/index.xhtml" |>).
+  assert (HSg' : Side (KS g') g') by (apply (Side_change _ _ g _ HSgk); reflexivity).
+  assert (HP : P (KS g') true (wo (X.doc_header (X.param "document-title" g') g') g')).
+  { apply (page_start g' HSg' Hb).
+    - change (sblock g') with (sblock g). rewrite (eqdf_get sblock _ _ (fun _ => eq_refl) Eg). exact Hsb.
+    - change (process g') with (process g). rewrite (eqdf_get process _ _ (fun _ => eq_refl) Eg). exact Hpr.
+    - change (wout g') with (wout g). rewrite (eqdf_get wout _ _ (fun _ => eq_refl) Eg). exact Hw.
+    - change (buf g') with (buf g). rewrite (eqdf_get buf _ _ (fun _ => eq_refl) Eg). exact Hbuf.
+    - change (par g') with (par g). rewrite (eqdf_get par _ _ (fun _ => eq_refl) Eg). exact Hpar. }
+  change (X.doc_header (X.param "document-title" g) g) with (X.doc_header (X.param "document-title" g') g').
+  set (s1 := wo _ _) in *. clearbody s1. cbv zeta.
+  destruct (P_toc _ _ _ HP) as [Ht1 Hl1]. cbn [fst snd KS] in Ht1, Hl1.
+  assert (Ht1' : toc s1 = toc r) by (rewrite Ht1; exact (eqdf_get toc g r (fun _ => eq_refl) Eg)).
+  assert (Hl1' : lox_toc s1 = lox_toc r) by (rewrite Hl1; exact (eqdf_get lox_toc g r (fun _ => eq_refl) Eg)).
+  split; [|split; [exact Hl1'|exact (sd_pa _ _ _ _ (proj1 HP))]].
+  split; [apply (P_K_eq _ _ _ _ HP); unfold KS; rewrite Ht1, Hl1; reflexivity|]. rewrite Hl1', Ht1'. split; [exact Hok'|exact Hcount].
 Qed.
 
 Lemma Q_reset_gen bs r : Side (KS r) r -> Forall entry_ok (lox_toc r) ->
@@ -486,7 +514,7 @@ Proof. intros HSr Hok' Hcount Hsb Hpr Hw Hbuf Hpar.
   assert (Hp : params r = default_params) by exact (sd_pa _ _ _ _ HSr).
   unfold exp_reset. rewrite Hf.
   destruct (sd_mode _ _ _ _ HSr) as [Hm Hmb]. rewrite Hm.
-  destruct Hmb as [[Hmd Hb]|[[Hmd | Hmd] Hb]]; rewrite Hmd.
+  destruct Hmb as [[Hmd Hb]|[[Hmd | [Hmd | Hmd]] Hb]]; rewrite Hmd.
   - split; [|reflexivity]. split; [|split; [exact Hok'|exact Hcount]].
     split; [exact HSr|]. split; [rewrite Hsb; constructor|]. split; [exact Hpr|]. intros _.
     split; [unfold out; rewrite Hw, Hbuf, Hel, Hb; reflexivity|intros _; exact Hbuf|exact Hf].
@@ -505,6 +533,9 @@ Proof. intros HSr Hok' Hcount Hsb Hpr Hw Hbuf Hpar.
     assert (HQ1 : Q true (hdr_count bs) bs s1).
     { split; [unfold KS; rewrite Ht1, Hl1; exact HP|]. rewrite Hl1, Ht1. split; [exact Hok'|exact Hcount]. }
     destruct (write_toc_Q (mkPo [] [] []) _ bs s1 eq_refl HQ1) as [HQ2 Hl2]. split; [exact HQ2|]. rewrite Hl2. exact Hl1.
+  - destruct (epub_gen_spec _ _ _ r HSr Hok') as [Eg Fg].
+    destruct (epub_page bs r (X.epub_gen r) HSr Eg Fg Hb Hok' Hcount Hsb Hpr Hw Hbuf Hpar) as (A & B & C). cbv zeta in A, B, C.
+    rewrite (title_page_default _ C). split; [exact A|exact B].
 Qed.
 Lemma Q_reset N bs s : Q false N [] s -> N = hdr_count bs ->
   Q true N bs (exp_reset (reset s)) /\ lox_toc (exp_reset (reset s)) = lox_toc s.
@@ -514,19 +545,19 @@ Proof. intros ((HS & _) & Hok & Hlen & Hcnt) HN.
   { change (lox_toc (reset s)) with (lox_toc s). change (hcount (toc (reset s))) with 0%nat. cbn [plus]. unfold hdr_count in *. cbn [filter List.length] in Hcnt. clear -Hlen Hcnt HN. lia. }
   assert (HSr : Side (KS (reset s)) (reset s)).
   { split; try reflexivity; [exact (sd_mk _ _ _ _ HS)|exact (sd_dt _ _ _ _ HS)|exact Hf|exact (sd_mode _ _ _ _ HS)|exact (sd_pa _ _ _ _ HS)|exact (sd_lof _ _ _ _ HS)|exact (sd_lot _ _ _ _ HS)|exact (sd_lop _ _ _ _ HS)
-    |constructor|intro; reflexivity|exact (sd_lnav _ _ _ _ HS)]. }
+    |constructor|intro; reflexivity|exact (sd_lnav _ _ _ _ HS)|exact (sd_img _ _ _ _ HS)]. }
   subst N. apply (Q_reset_gen bs (reset s) HSr Hok Hcount); reflexivity.
 Qed.
 
 Lemma refs_ok_nil : refs_ok []. Proof. intros [|i] e H; discriminate. Qed.
-Theorem C02_headers_balanced fuel wd main bs : mode_base -> Forall in_fragH bs ->
-  let s := snd (compile (S fuel) (R "xhtml") MD wd main bs) in
+Theorem C02_headers_balanced fuel f wd main bs : mode_base -> xhtml_name f -> Forall in_fragH bs ->
+  let s := snd (compile (S fuel) f MD wd main bs) in
   panicked s = None /\
   run (flat (wout s)) (Txt, []) = (Txt, []) /\ In (curfile s, flat (wout s)) (files s) /\ Forall file_ok (files s) /\
   Forall entry_ok (lox_toc s) /\ refs_ok (lox_toc s).
-Proof. intros Hmb Hbs. unfold compile.
-  pose proof (fragH_invariant false (hdr_count bs) fuel bs (start_ctl wd main, start_st (R "xhtml") MD wd main) Hbs (Q_start wd main bs Hmb) refs_ok_nil) as [H1 R1].
-  destruct (run_blocks (S fuel) bs (start_ctl wd main, start_st (R "xhtml") MD wd main)) as [c1 s1]. cbn [snd] in H1, R1.
+Proof. intros Hmb Hfn Hbs. unfold compile.
+  pose proof (fragH_invariant false (hdr_count bs) fuel bs (start_ctl wd main, start_st f MD wd main) Hbs (Q_start f wd main bs Hmb Hfn) refs_ok_nil) as [H1 R1].
+  destruct (run_blocks (S fuel) bs (start_ctl wd main, start_st f MD wd main)) as [c1 s1]. cbn [snd] in H1, R1.
   rewrite (sd_np _ _ _ _ (proj1 (proj1 H1))).
   destruct (Q_reset _ bs s1 H1 eq_refl) as [HQ2 Elr].
   assert (R1' : refs_ok (lox_toc (snd (set_budget 0 false c1, exp_reset (reset s1))))) by (cbn [snd]; rewrite Elr; exact R1).
@@ -543,7 +574,8 @@ Proof. intros Hmb Hbs. unfold compile.
   assert (Hpost : exists x, wout (exp_post s7) = x ++ wout s7 /\ run (flat x) (Txt, BASE) = (Txt, []) /\
                    files (exp_post s7) = files s7 /\ curfile (exp_post s7) = curfile s7 /\ lox_toc (exp_post s7) = lox_toc s7 /\ panicked (exp_post s7) = panicked s7).
   { unfold exp_post. rewrite (sd_fmt _ _ _ _ HS). destruct (sd_mode _ _ _ _ HS) as [Hm Hb]. rewrite Hm.
-    destruct Hb as [[Hmd Hb]|[[Hmd | Hmd] Hb]]; rewrite Hmd.
+    destruct Hb as [[Hmd Hb]|[[Hmd | [Hmd | Hmd]] Hb]]; rewrite Hmd; [| |
+      |exists [X.doc_footer]; rewrite Hb; repeat split; reflexivity].
     - exists []. rewrite Hb. repeat split; reflexivity.
     - exists [X.doc_footer]. rewrite Hb. repeat split; reflexivity.
     - pose proof (sd_nav _ _ _ _ HS) as Hnav. destruct (navtext s7) as [|c0 n0] eqn:En.
@@ -565,14 +597,15 @@ Qed.
 End WithBase.
 
 (* the output modes the theorem covers: every file written (the one current at the end included) is balanced *)
-Theorem C02_headers_balanced_modes fuel md wd main bs : md = 0%nat \/ md = 1%nat \/ md = 2%nat -> Forall in_fragH bs ->
-  let s := snd (compile (S fuel) (R "xhtml") md wd main bs) in
+Theorem C02_headers_balanced_modes fuel f md wd main bs : xhtml_name f -> (md <= 3)%nat -> Forall in_fragH bs ->
+  let s := snd (compile (S fuel) f md wd main bs) in
   panicked s = None /\ run (flat (wout s)) (Txt, []) = (Txt, []) /\ In (curfile s, flat (wout s)) (files s) /\ Forall file_ok (files s) /\
   Forall entry_ok (lox_toc s) /\ refs_ok md (lox_toc s).
-Proof. intros [-> | [-> | ->]].
-  - apply (C02_headers_balanced [] 0 fuel). left. split; reflexivity.
-  - apply (C02_headers_balanced [R "body"; R "html"] 1 fuel). right. split; [left|]; reflexivity.
-  - apply (C02_headers_balanced [R "body"; R "html"] 2 fuel). right. split; [right|]; reflexivity.
+Proof. intros Hf Hmd. destruct md as [|[|[|[|m]]]]; [| | | |exfalso; clear -Hmd; lia].
+  - apply (C02_headers_balanced [] 0 fuel); [|exact Hf]. left. split; reflexivity.
+  - apply (C02_headers_balanced [R "body"; R "html"] 1 fuel); [|exact Hf]. right. split; [left|]; reflexivity.
+  - apply (C02_headers_balanced [R "body"; R "html"] 2 fuel); [|exact Hf]. right. split; [right; left|]; reflexivity.
+  - apply (C02_headers_balanced [R "body"; R "html"] 3 fuel); [|exact Hf]. right. split; [right; right|]; reflexivity.
 Qed.
 Print Assumptions C02_headers_balanced_modes.
 
@@ -654,4 +687,12 @@ Example multifile_example :
   let s := compile_source (R "xhtml") 2 ex_world (R "m.frundis") in
   panicked s = None /\ map fst (files s) = [R "index.html"; R "body-0-01.html"] /\
   map (fun f => run (snd f) (Txt, [])) (files s) = [(Txt, []); (Txt, [])].
+Proof. vm_compute. repeat split; reflexivity. Qed.
+(* and as an EPUB: the generated package files, the index page and one page per chapter *)
+Example epub_example :
+  let s := compile_source (R "epub") 3 ex_world (R "m.frundis") in
+  panicked s = None /\
+  map fst (files s) = [R "mimetype"; R "META-INF/container.xml"; R "EPUB/content.opf"; R "EPUB/nav.xhtml"; R "EPUB/stylesheet.css"; R "EPUB/toc.ncx";
+                       R "EPUB/index.xhtml"; R "EPUB/body-0-01.xhtml"] /\
+  forallb (fun f => match run (snd f) (Txt, []) with (Txt, []) => true | _ => false end) (files s) = true.
 Proof. vm_compute. repeat split; reflexivity. Qed.
